@@ -45,9 +45,7 @@ Record leaf_codec := mkleaf {
   lc_ok : ltype -> pval -> bool }.
 
 Record xcfg := mkxcfg {
-  x_soft : bool;          (* validator='soft' *)
-  x_tns : option text     (* Some tns: classes resolved by an Application (Array(primitive) classes live in its tns);
-                             None: no Application, such Array classes have no namespace *)
+  x_soft : bool           (* validator='soft' *)
 }.
 
 (** the lxml serialise/parse cycle on Spyne-built trees *)
@@ -119,17 +117,6 @@ Section Codec.
 
   Definition cls_ns (c : cid) : text := match get_cls U c with Some cl => c_ns cl | None => [] end.
   Definition cls_name (c : cid) : text := match get_cls U c with Some cl => c_name cl | None => [] end.
-
-  (** namespace of the Array(T) class = the namespace its single member is written in:
-      Array.resolve_namespace takes the serializer's, and a primitive's (xs) becomes the tns *)
-  Fixpoint arr_ns_app (tns : text) (e : ty) : text :=
-    match e with
-    | TLeaf _ => tns
-    | TRef c => cls_ns c
-    | TArr e' _ => arr_ns_app tns e'
-    end.
-  Definition arr_ns (e : ty) : text :=
-    match x_tns C with Some tns => arr_ns_app tns e | None => [] end.
 
   (* ---------------------------------------------------------------- output *)
 
@@ -209,8 +196,8 @@ Section Codec.
             end
         | VList xs =>
             match t with
-            | TArr e mname =>                                              (* Array: one unbounded member *)
-                do kids <- mapM (enc k e (arr_ns e) mname) xs;
+            | TArr e mns mname =>                                          (* Array: one unbounded member, in the Array class's namespace *)
+                do kids <- mapM (enc k e mns mname) xs;
                 Ok (XElt ns name [] None kids)
             | _ => Crash TypeError
             end
@@ -336,7 +323,7 @@ Section Codec.
             else
               match t with
               | TLeaf l => dec_leaf l nillable txt
-              | TArr el _ =>                                               (* array_from_element *)
+              | TArr el _ _ =>                                             (* array_from_element *)
                   do vs <- mapM (dec k el true) kids; Ok (VList vs)
               | TRef c =>                                                  (* complex_from_element *)
                   match flat_fields U c with
@@ -403,7 +390,7 @@ Section Codec.
         match v with
         | VNone => true                   (* whether None is allowed is decided by the position *)
         | VLeaf p => match t with TLeaf l => leaf_has (lt_spec l) p && lc_ok L l p | _ => false end
-        | VList vs => match t with TArr e _ => forallb (xconf k e) vs | _ => false end
+        | VList vs => match t with TArr e _ _ => forallb (xconf k e) vs | _ => false end
         | VObj d fs =>
             match t with
             | TRef c =>
@@ -453,7 +440,7 @@ Section Codec.
     | S k =>
         match t, v with
         | TLeaf _, _ => norm_leaf KElem v
-        | TArr e _, VList xs => VList (map (norm k e) xs)
+        | TArr e _ _, VList xs => VList (map (norm k e) xs)
         | TRef c, VObj d fs =>
             match flat_fields U c with
             | Some ffs => VObj c (norm_fields (norm k) ffs fs)
